@@ -77,6 +77,7 @@ type pkgInfo struct {
 	funcs   map[string]*ast.FuncDecl
 	fnFile  map[string]*ast.File
 	vars    map[string]bool
+	dups    map[string]bool                 // functions declared in more than one file (build tags)
 	imports map[*ast.File]map[string]string // alias -> import path
 }
 
@@ -133,7 +134,7 @@ func (t *translator) loadPkg(dir string) *pkgInfo {
 		return p
 	}
 	p := &pkgInfo{dir: dir, consts: map[string]*constDecl{}, types: map[string]ast.Expr{}, funcs: map[string]*ast.FuncDecl{},
-		fnFile: map[string]*ast.File{}, vars: map[string]bool{}, imports: map[*ast.File]map[string]string{}}
+		fnFile: map[string]*ast.File{}, vars: map[string]bool{}, dups: map[string]bool{}, imports: map[*ast.File]map[string]string{}}
 	t.pkgs[dir] = p
 	ents, err := os.ReadDir(filepath.Join(t.repo, dir))
 	if err != nil {
@@ -181,6 +182,8 @@ func (t *translator) loadPkg(dir string) *pkgInfo {
 				if _, dup := p.funcs[name]; !dup {
 					p.funcs[name] = x
 					p.fnFile[name] = af
+				} else {
+					p.dups[name] = true
 				}
 			case *ast.GenDecl:
 				for _, s := range x.Specs {
@@ -1346,7 +1349,8 @@ func (ft *ftrans) call(c *ast.CallExpr, e env, pre *[]prelude) val {
 						return ft.convert(qual(d, f.Sel.Name), ft.expr(c.Args[0], e, pre))
 					}
 				}
-				name := id.Name + "." + f.Sel.Name
+				// library functions are named by the import path, not by the alias the file gives the package
+				name := path + "." + f.Sel.Name
 				if cal := ft.findCallee(name, c.Args, e); cal != nil {
 					return ft.applyCallee(cal, "", c.Args, e, pre)
 				}
@@ -1456,7 +1460,7 @@ func (ft *ftrans) block(stmts []ast.Stmt, e env, k cont) node {
 		return ft.rng(s, e, rest)
 	case *ast.ExprStmt:
 		if ce, ok := s.X.(*ast.CallExpr); ok {
-			name := render(ce.Fun)
+			name := ft.qualName(ce.Fun)
 			for _, ig := range ft.t.mod.Ignore {
 				if ig == name {
 					return rest(e)
@@ -1477,6 +1481,18 @@ func render(e ast.Expr) string {
 		return render(x.X) + "." + x.Sel.Name
 	}
 	return "?"
+}
+
+// qualName: pkg.Func with the package named by its import path
+func (ft *ftrans) qualName(e ast.Expr) string {
+	if sel, ok := e.(*ast.SelectorExpr); ok {
+		if id, ok := sel.X.(*ast.Ident); ok && id.Obj == nil {
+			if path, ok := ft.f.pkg.imports[ft.f.file][id.Name]; ok {
+				return path + "." + sel.Sel.Name
+			}
+		}
+	}
+	return render(e)
 }
 
 func (ft *ftrans) ret(s *ast.ReturnStmt, e env) node {
@@ -1654,7 +1670,7 @@ func (ft *ftrans) errClass(x ast.Expr, e env) string {
 			}
 		}
 	case *ast.CallExpr:
-		name := render(c.Fun)
+		name := ft.qualName(c.Fun)
 		for _, ec := range ft.t.mod.ErrorCtor {
 			if ec == name {
 				return "nonnil"
@@ -2190,6 +2206,17 @@ func (ft *ftrans) rng(s *ast.RangeStmt, e env, k cont) node {
 // ---------------------------------------------------------------- driver
 
 func (t *translator) analyse(g *fn) {
+	for _, pre := range []string{"len", "string", "int", "bool", "byte", "uint8", "uint16", "uint32", "uint64", "int64", "error", "true", "false", "nil"} {
+		_, isF := g.pkg.funcs[pre]
+		_, isT := g.pkg.types[pre]
+		_, isC := g.pkg.consts[pre]
+		if isF || isT || isC || g.pkg.vars[pre] {
+			failf("the package redeclares the predeclared identifier %s", pre)
+		}
+	}
+	if g.pkg.dups[g.cfg.Go] {
+		failf("declared in more than one file of the package (build tags are outside the subset)")
+	}
 	// signature
 	ft := g.decl.Type
 	if ft.TypeParams != nil {
@@ -2257,7 +2284,9 @@ func (t *translator) translate(g *fn) {
 		if r := recover(); r != nil {
 			f, ok := r.(failure)
 			if !ok {
-				panic(r)
+				// a bug of the translator on this input: the function is left out like any other
+				// untranslatable one (the check must not crash, and must not keep a stale definition)
+				f = failure{fmt.Sprintf("internal error of the translator: %v", r)}
 			}
 			g.err = f.msg
 			g.text = ""
